@@ -365,7 +365,7 @@ def run(ctx):
                     {"default": default, "namespace": nsk}, detail={"default": default, "namespace": nsk, "call": made[0][0] if made else None})
     # ---- C04.13 `seq[seq.index(x) - 1]` wraps around to the last element when x is first: the element before the first child
     # does not exist, and Python silently hands out the *last* one
-    r.rule("C04.13", "`[index - 1]` on a position obtained from .index() is guarded against index 0 (or argued to be >= 1)", floor=4)
+    r.rule("C04.13", "`[index - 1]` on a position obtained from .index() is guarded against index 0 (or argued to be >= 1)", floor=2)
     ARGUED_NONZERO = {
         "InBodyPhase.endTagFormatting": "the formatting element is never the root html element (index 0 of the stack of open elements)",
         "TreeBuilder.getTableMisnestedNodePosition": "a table element is never the root html element (index 0 of the stack of open elements)",
@@ -403,7 +403,7 @@ def run(ctx):
                           "%s reads `%s` without a test that the position is not 0: when the node is the first one, index -1 silently selects "
                           "the *last* element (text foster-parented before a table that is its parent's first child lands after the last "
                           "child instead)" % (f.qual, norm(sc)[:60]), {"function": f.qual})
-    if n13 < 4:
+    if n13 < 2:
         raise AnalysisError("C04.13 matched %d `[index - 1]` sites" % n13)
     # ---- C04.3b: `childNodes` is a property in the etree back-end (getter returns the shadow list, setter clears both
     # lists): mutating the returned list in place changes the shadow list only
